@@ -122,9 +122,10 @@ def check_binary(ctx, dom, cfp, P, Q, rp, rq, fam, two_t_curve):
     if not ok:
         m = "eq_wrong"
         if P is None and Q is None and rp != "INF" and rq != "INF" and got_eq is False and got_ne is True:
-            # two non-INFINITY objects that both denote the identity (Z = 0 and/or the (0, 0, 1) guise)
-            m = KF_IDEQ
-        ctx.violation(mech(m, tt, "eq|%s|%s|%s|%s" % (rep_class(rp), rep_class(rq), rel, tpat(P, Q))), "%s: (%s == %s) = %r, != gives %r; points equal: %r (p=%d a=%d b=%d)" % (fam, sa, sb, got_eq, got_ne, want, p, c.a, c.b),
+            # two non-INFINITY objects that both denote the identity; the shapes that fail on the pinned tree are listed in
+            # known_findings.json (details), any other pair of guises is reported
+            m = KF_IDEQ + "|" + "==".join((rp, rq))
+        ctx.violation(m if m.startswith(KF_IDEQ) else mech(m, tt, "eq|%s|%s|%s|%s" % (rep_class(rp), rep_class(rq), rel, tpat(P, Q))), "%s: (%s == %s) = %r, != gives %r; points equal: %r (p=%d a=%d b=%d)" % (fam, sa, sb, got_eq, got_ne, want, p, c.a, c.b),
                       dict(curve=c.key(), P=P, Q=Q, reps=(rp, rq)), _rp(dom, ["%s == %s" % (sa, sb)]))
 
 
